@@ -79,3 +79,21 @@ Theorem C04_builtin_anchor_ids :
   builtin_roots_safetynet = [12569499210198843918; 16098262113507081481].
 Proof. vm_compute. repeat split. Qed.
 Print Assumptions C04_builtin_anchor_ids.
+
+(* ---- the path notion is decidable by an executable search (run against OpenSSL's verdict on every chain the
+   check explores); the fuel bound (presented intermediates + 2) is sufficient: repeated certificates can be cut
+   out of any path ---- *)
+From PW Require Import Proofs.PathProofs.
+Theorem C04_path_search_decides_the_spec : forall now x5c anchors,
+  chain_acceptable_b now x5c anchors = true <-> ChainAcceptable now x5c anchors.
+Proof. exact chain_acceptable_b_spec. Qed.
+Print Assumptions C04_path_search_decides_the_spec.
+
+(* what the property lists as rejected, read off the spec: a chain whose leaf is not in its validity period, or
+   with no presented/anchor certificate that issued it (name + signature + CA), is not acceptable *)
+Theorem C04_spec_rejects : forall now leaf inter anchors,
+  (~ in_validity now leaf) \/
+  (~ In leaf anchors /\ forall p, In p (inter ++ anchors) -> ~ issued_by leaf p) ->
+  ~ ChainAcceptable now (leaf :: inter) anchors.
+Proof. exact spec_rejects. Qed.
+Print Assumptions C04_spec_rejects.
